@@ -273,11 +273,24 @@ def run(sim, plan):
             peer.send(rc.control(rc.DESELECT_RSP, 0xDEAD0000 + next_sys(), b3=0))
         elif op in ("data", "data_w"):
             system = 0x40000000 + next_sys()
-            body = rc.enc(rc.ls(rc.b(arg), rc.a(f"m{conn['n']}.{system & 0xFFFF}")))
-            fr = rc.data(10, 3, op == "data_w", system, body)
+            tag = rc.a(f"m{conn['n']}.{system & 0xFFFF}")
+            shape = (system + arg) % 6
+            st, fn, body = 10, 3, rc.enc(rc.ls(rc.b(arg), tag))
+            if shape == 2:
+                # well-formed E5 item that does not fit the catalogued structure of its function (a list longer than
+                # declared): framing, selection test and delivery do not depend on the body
+                st, fn, body = (6, 5, rc.enc(rc.ls(rc.u4(1), rc.u4(2), tag))) if op == "data_w" else \
+                    (1, 14, rc.enc(rc.ls(rc.b(0), rc.ls(), tag)))
+                sim.probe("data_body_not_catalogue_shaped")
+            elif shape == 3:
+                st, fn, body = 99, 7, rc.enc(tag)          # function that is not catalogued
+                sim.probe("data_uncatalogued")
+            elif shape == 4:
+                st, fn, body = 1, (1 if op == "data_w" else 2), rc.enc(rc.ls(tag, tag, tag))
+            fr = rc.data(st, fn, op == "data_w", system, body)
             peer.send(fr)
             if sel == {"S"}:
-                expect_deliver.append((system, 10, 3, op == "data_w", body))
+                expect_deliver.append((system, st, fn, op == "data_w", body))
                 sim.probe("data_selected")
             elif sel == {"NS"}:
                 expect_reject.append((peer, system))
